@@ -28,13 +28,28 @@ MANIFEST = dict(
           "summation in ANY order within ((1+u)^(n-1)-1) sum|p_i|; the bias of nano::upscale within ((1+u)^(C+4)-1) M/|tw| and "
           "each weight within (2u+u^2) relative of the exact conversion, hence the converted model's prediction within the sum of "
           "both of the exact up-scaled model (no underflow). The harness / driver check these PROVED bounds (exact rational "
-          "arithmetic) on the implementation's values instead of the former empirical tolerances."),
+          "arithmetic) on the implementation's values instead of the former empirical tolerances. "
+          "SECOND EXTENSION (C14_Float2*.v, C14_Wrap*.v): accuracy of the one-pass statistics for the sequential left-to-right accumulation of "
+          "update() -- |mean - S/N| <= g(N) sum|x|/N; one-pass variance within (g(N+2) sum x^2 + g(2N+2) (sum|x|)^2/N)/(N-1) of the exact sample "
+          "variance (the expression tree of done()), variance >= 0 over R, stdev^2 in [(var-E)(1-u)^2, (var+E)(1+u)^2] and |sd - sqrt var| <= u sqrt var + "
+          "(1+u) sqrt E (correctly rounded sqrt never underflows, the clamp is 1-Lipschitz) -- proved over the reals and transported to the PrimFloat twin "
+          "(finiteness of the FINAL sums covers every intermediate sum); the advertised properties of the scaled columns in floating point: zero mean "
+          "|sum y| <= div (g(N) sum|x| + g(2) sum|x-mean|), range of mean scaling ((max-min) + delta) div (1+u)^2 + eta, sample variance of the scaled "
+          "column = div^2 var up to g(4) div^2 (sum (x-m)^2 + (sum|x-m|)^2/N)/(N-1) and |div^2 var - 1| <= 4u-ish + (1+u)^2 E/sd^2; the dot product of "
+          "linear::predict in any order within g(C+1). The wrappers of src/linear.cpp as thin compositions (modes translated from the source): for every "
+          "(W, b), mode pair and statistics, predict(stored model, finite raw x) = upscale_t(W scale(x) + b); a missing raw input is read as RAW zero, the "
+          "exact discrepancy to 'missing -> scaled zero' is a theorem with a witness (observation, not a violation). The harness fits real ordinary / "
+          "ridge models in all four modes, replays the fit to observe (W, b), requires the stored model to be nano::upscale of it bit for bit, and the "
+          "driver checks linear_t::predict (missing values in the prediction rows) against the proved bound; the mean / stdev / zero-mean / range / "
+          "unit-deviation oracles of harness and driver now use the PROVED constants."),
     note=("Coq kernel + standard axioms of the reals / classical logic + FloatAxioms (primitive floats = IEEE binary64); Flocq 4.1; "
           "translator (14 integer kernels + 25 floating-point expression shapes of stats.cpp); extraction with ExtrOcamlZBigInt "
           "(Zarith) + ExtrOCamlFloats / ExtrOCamlInt63 (coq-core.kernel); harness against the library built from the working tree + "
           "OCaml driver; g++ -O2 x86-64 SSE2 without FMA contraction (bit-exactness of the twin is re-established on every run); "
-          "still searched only: accuracy of mean / stdev w.r.t. the exact statistics, zero mean / [-1,1] range / unit deviation in "
-          "floating point, the library's own floating-point scale/upscale inside the long-double prediction check, Eigen's product."),
+          "second extension: gamma_k = k u/(1 - k u) >= g(k) (C14_fl_gamma) is what the oracles evaluate; harness/c14_linear.cpp replays the anonymous "
+          "::fit of linear.cpp through the public API (bit-identical on every case); still searched only: the library's own floating-point scale/upscale "
+          "inside the long-double prediction check of the AFF stage, Eigen's products (as any-order sums), cases outside the no-overflow / no-underflow "
+          "hypotheses (counted; none generated)."),
     technique="Coq proof over Q of a translated+extracted model, Flocq proofs of the rounding-error bounds for a bit-exact PrimFloat "
               "twin, differential correspondence (exact / bit for bit / proved tolerance), direct property oracles on the implementation",
     design="DESIGN.md section 2, C14")
@@ -45,7 +60,13 @@ CHUNKS = {"quick": (1, 1000), "thorough": (48, 1000)}   # (chunks, cases per chu
 COUNTERS = ("corpus_cases", "cases", "columns", "values", "pred_rows", "rt_values", "missing_values", "categorical_columns", "constant_columns",
             "single_columns", "empty_columns", "guard_range_columns", "guard_stdev_columns", "meta_columns", "fsc_lines", "fsc_values")
 # counters of the driver's twin stage (MODEL-DONE line)
-TWIN_COUNTERS = ("twin_values", "bound_values", "minmax_values", "chain_overflow", "bias_bound", "bias_fallback", "finite_cols", "pred_bound", "propfails")
+TWIN_COUNTERS = ("twin_values", "bound_values", "minmax_values", "chain_overflow", "bias_bound", "bias_fallback", "finite_cols", "pred_bound", "propfails",
+                 # second extension: accuracy of the statistics / advertised properties of the scaled columns / the wrappers
+                 "acc_mean", "acc_stdev", "acc_fallback", "zm_cols", "range_vals", "unit_cols", "scaled_fallback",
+                 "lin_models", "lin_preds", "lin_missing", "lin_discrepancy", "lin_fallback")
+# second extension, stage "linear": harness/c14_linear.cpp (real fitted linear_t models), cases per chunk
+LIN_CASES = {"quick": (1, 400), "thorough": (8, 2500)}
+LIN_COUNTERS = ("lin_cases", "fits", "ridge", "replay_ok", "lin_lines", "pred_rows", "missing_rows", "missing_values", "class_cases", "const_columns")
 
 
 def _build_driver():
@@ -81,6 +102,7 @@ def _build_driver():
 
 def setup():
     vlib.build_harness("c14_scaling", "rel", need_lib=True)
+    vlib.build_harness("c14_linear", "rel", need_lib=True)
     try:
         _build_driver()
     except vlib.CheckError:
@@ -223,20 +245,80 @@ def run(tier, replay=None):
                         byid.setdefault((ch, p[1]), l)
             mism += [(ch, l) for l in cm]
         del lines, oplines
+    # ---- second extension, stage "linear": real fitted linear_t models through linear_t::fit / linear_t::predict -------------
+    lexe = vlib.build_harness("c14_linear", "rel", need_lib=True)
+    lchunks, lcases = LIN_CASES.get(tier, LIN_CASES["quick"])
+    lcmd_of = lambda ch: "VERIF_SEED=%d %s %s %d %d" % (r.seed, lexe, tier, lcases, ch)
+    lin_cmd = {}
+    for ch in range(lchunks):
+        rc, out = vlib.sh([lexe, tier, str(lcases), str(ch)], timeout=3000, env={"VERIF_SEED": str(r.seed)})
+        lines = [l for l in out.split("\n") if l]
+        del out
+        done = [l for l in lines if l.startswith("DONE ")]
+        oplines = [l for l in lines if l.startswith(("LIN ", "LPR "))]
+        for l in lines:
+            op = l.split(" ", 1)[0]
+            if op in ("LIN", "LPR", "FAIL"):
+                ops[op] += 1
+        lch = 1000 + ch                       # chunk ids of the linear stage (replay commands differ)
+        lin_cmd[lch] = lcmd_of(ch)
+        impl_fail += [(lch, l) for l in lines if l.startswith("FAIL ")]
+        evaluations += len(oplines)
+        if rc != 0 or not done:
+            r.violation("crash-linear", {"kind": "implementation-crash / exception in the linear harness", "exit": rc, "mode": tier,
+                                         "last_operations": [l[:600] for l in oplines][-5:],
+                                         "tail": "\n".join(lines[-8:])[-1500:], "replay_cmd": lcmd_of(ch)}, fingerprint="crash-linear")
+        else:
+            d = _kv(done[0])
+            for k in LIN_COUNTERS:
+                totals[k] += int(d.get(k, 0))
+            for k, v in _hist(d.get("modes", "")).items():
+                hists.setdefault("lin_modes", collections.Counter())[k] += v
+        if len(samples) < 9:
+            samples += [l[:500] for l in lines if l.startswith("LIN ") and len(l) < 500][:1] + \
+                       [l[:300] for l in lines if l.startswith("LPR ") and "nan" in l and len(l) < 300][:1]
+        if drv:
+            feed = "\n".join(l for l in lines if l.startswith(("CONST ", "LIN ", "LPR "))) + "\n"
+            rc2, mout = vlib.sh([drv], input=feed, timeout=3000)
+            got = 0
+            cm = []
+            for l in mout.split("\n"):
+                if l.startswith("MISMATCH"):
+                    cm.append(l)
+                elif l.startswith("PROPFAIL "):
+                    drv_fail.append((lch, "FAIL " + l[len("PROPFAIL "):]))
+                elif l.startswith("MODEL-DONE"):
+                    got = int(l.split("checked=")[1].split()[0])
+                    for k, v in _kv(l).items():
+                        if k in TWIN_COUNTERS:
+                            totals[k] += int(v)
+            checked += got
+            if rc2 != 0 or (not got and oplines):
+                r.violation("driver-linear", {"kind": "model driver failed on the linear stage", "out": mout[-2000:],
+                                              "replay_cmd": lcmd_of(ch) + " | " + drv}, no_input=True)
+            if cm:
+                ids = set(x.split(" ", 3)[2] for x in cm)
+                for l in oplines:
+                    pp = l.split(" ", 2)
+                    if pp[1] in ids and l.startswith("LIN "):
+                        byid.setdefault((lch, pp[1]), l)
+            mism += [(lch, l) for l in cm]
+        del lines, oplines
+    _cmd = lambda ch: lin_cmd[ch] if ch in lin_cmd else cmd_of(ch)
     # direct property oracle on the implementation: one violation per clause (shortest case of the clause)
     impl_fail += drv_fail
     seen = set()
     for ch, l in impl_fail:
         clause = l.split(" ", 2)[1]
-        if clause in seen or len(seen) >= 4:
+        if clause in seen or len(seen) >= 6:
             continue
         seen.add(clause)
         same = [(c, x) for c, x in impl_fail if x.split(" ", 2)[1] == clause]
         sch, shortest = min(same, key=lambda cx: len(cx[1]))
         r.violation("impl-%s" % clause, {"kind": "direct property check failed on the implementation", "clause": clause,
                                          "case": shortest[:6000], "failures_of_this_clause": len(same),
-                                         "replay_cmd": (cmd_of(sch) + " | %s | grep '^PROPFAIL %s'" % (drv, clause)) if clause.startswith("fl-")
-                                         else cmd_of(sch) + " | grep '^FAIL %s'" % clause})
+                                         "replay_cmd": (_cmd(sch) + " | %s | grep '^PROPFAIL %s'" % (drv, clause)) if clause.startswith("fl-")
+                                         else _cmd(sch) + " | grep '^FAIL %s'" % clause})
     kinds = set()
     for ch, l in mism:
         kind = l.split(" ", 2)[1]
@@ -250,12 +332,15 @@ def run(tier, replay=None):
         # input; a pure model/implementation disagreement while every direct oracle holds is reported as a broken tie
         r.violation("corr-%s" % kind, {"kind": "model/implementation disagreement beyond the rounding tolerance",
                                        "case": shortest[:6000], "implementation_line": byid.get((sch, lid), "")[:6000],
-                                       "mismatches_of_this_kind": len(same), "replay_cmd": cmd_of(sch) + " | " + str(drv)},
+                                       "mismatches_of_this_kind": len(same), "replay_cmd": _cmd(sch) + " | " + str(drv)},
                     no_input=not impl_fail and not kind.startswith(("stats", "scale-nonfinite", "affine-nonfinite")))
     vlib.handle_coq_failure(r, cres)
     vlib.proof_coverage(r, cres, "make -C coq theories/Properties_C14.vo && coqc theories/Properties_C14.v (Print Assumptions)",
                         ["tools/translate.py (13 integer kernels of src/dataset/stats.cpp + idiv; 25 floating-point expression shapes "
-                         "translated over Z and proved to be the Z instance of the shapes the PrimFloat twin instantiates)",
+                         "translated over Z and proved to be the Z instance of the shapes the PrimFloat twin instantiates; 5 mode kernels of "
+                         "src/linear.cpp / src/linear/util.cpp pinned by C14_wrap_modes)",
+                         "harness/c14_linear.cpp: the replay of the anonymous ::fit of linear.cpp through the public API (deterministic: one batch "
+                         "per training set), checked bit for bit against the stored model on every case",
                          "extraction: ExtrOcamlBasic + ExtrOcamlZBigInt (positive/Z mapped to Zarith big integers) + ExtrOCamlFloats / "
                          "ExtrOCamlInt63 (primitive floats / 63-bit integers mapped to OCaml's native floats / Uint63 of coq-core.kernel)",
                          "Flocq 4.1.0 (standard model of binary64, IEEE754.PrimFloat bridge), FloatAxioms of Coq's primitive floats",
@@ -286,6 +371,23 @@ def run(tier, replay=None):
                          "columns_checked_against_the_proved_finiteness_of_the_statistics": totals["finite_cols"],
                          "probe_predictions_checked_against_the_proved_prediction_bound": totals["pred_bound"],
                          "proved_bound_violations": totals["propfails"]}
+    for k in LIN_COUNTERS:
+        cov[k] = totals[k]
+    cov["linear_mode_histogram"] = {("none", "mean", "minmax", "standard")[int(k)]: v for k, v in hists.get("lin_modes", {}).items()}
+    cov["second_extension_stage"] = {
+        "columns_checked_against_the_proved_mean_accuracy_g(N)": totals["acc_mean"],
+        "columns_checked_against_the_proved_stdev^2_interval": totals["acc_stdev"],
+        "columns_outside_the_no_overflow/underflow_hypotheses_of_the_accuracy_theorems": totals["acc_fallback"],
+        "scaled_columns_checked_against_the_proved_zero_mean_bound": totals["zm_cols"],
+        "mean_scaled_values_checked_against_the_proved_range_bound": totals["range_vals"],
+        "standardised_columns_checked_against_the_proved_variance_bounds": totals["unit_cols"],
+        "scaled_columns_outside_the_hypotheses": totals["scaled_fallback"],
+        "fitted_linear_models_(stored_W',b'_vs_twin_of_nano::upscale_of_the_replayed_solution)": totals["lin_models"],
+        "stored_models_bit_identical_to_upscale_of_the_replayed_fit": totals["replay_ok"],
+        "linear_t::predict_rows_checked_against_the_proved_bound": totals["lin_preds"],
+        "of_which_with_missing_raw_inputs": totals["lin_missing"],
+        "rows_where_missing->raw_0_differs_from_missing->scaled_0_(observation,_C14_wrap_missing_scaled_zero_refuted)": totals["lin_discrepancy"],
+        "prediction_outputs_outside_the_no_underflow_hypotheses_(4x_bound)": totals["lin_fallback"]}
     cov["column_kind_histogram"] = {KIND_NAMES[int(k)]: v for k, v in hists["kinds"].items() if int(k) < len(KIND_NAMES)}
     ph = collections.Counter()
     for k, v in hists["patterns"].items():
@@ -299,9 +401,11 @@ def run(tier, replay=None):
     cov["impl_direct_failures"] = len(impl_fail)
     cov["samples"] = samples
     cov["unproved_clauses_searched"] = [
-        "accuracy of the floating-point statistics w.r.t. the exact ones: mean within 2(N+2)u sum|x|/N, stdev^2 within (8N+16)u sum x^2/(N-1) "
-        "+ 4u sd^2 of the exact variance, (de)normalisers within 2-4 ulp of the exact-rational model (their bit patterns are those of the twin)",
-        "floating-point zero mean, [-1,1] range of mean scaling and unit deviation of standard scaling (exact-arithmetic theorems only)",
+        "(de)normalisers within 2-4 ulp of the exact-rational model (their bit patterns are those of the twin); the former empirical tolerances on "
+        "mean / stdev^2 of the exact-rational correspondence stage are kept but are now implied by the PROVED accuracy bounds checked next to them",
+        "the proved accuracy / zero-mean / range / unit-variance bounds when a no-overflow / no-underflow hypothesis fails (counted, never generated)",
+        "Eigen's matrix product inside linear::predict (covered as a summation in any order by C14_fl_predict_dot)",
+        "the solver's solution itself (any (W, b) is admitted by the theorems; the harness replays the fit to observe it)",
         "predictions W'x+b' vs the LIBRARY's floating-point upscale_t(W scale_f(x)+b) in long double, tolerance 32(C+8)u M (the proved "
         "prediction bound is against the exact up-scaled model and is checked in the driver)",
         "the bias of nano::upscale when a no-underflow hypothesis is undecidable from outside (b' = 0 or subnormal): empirical (2C+16)u tolerance",
@@ -313,9 +417,18 @@ def run(tier, replay=None):
         "min-max: [min,max] -> [0,1] exactly, min -> 0, max -> [1-u,1] (C14_fl_minmax; FAIL minmax-range, PROPFAIL fl-minmax)",
         "no NaN / stdev >= 0 / (de)normalisers > 0 (C14_fl_stats_finite; FAIL stats-finite, PROPFAIL fl-stats-finite)",
         "bias within g(C+4) M/|tw| (C14_fl_up_bias; PROPFAIL fl-up-bias), weight within g(2) relative (C14_fl_up_weight; PROPFAIL fl-up-weight)",
-        "prediction of the converted model within g(2) sum|W'x| + g(C+4) M/|tw| of the exact up-scaled model (C14_fl_prediction; PROPFAIL fl-prediction)"]
-    cov["not_reached"] = ["linear_t::fit / predict wrappers (they call nano::upscale with the same mode for inputs and targets, which the "
-                          "harness calls directly)", "non-finite but not NaN inputs (+-inf), magnitudes outside 1e-6..1e6"]
+        "prediction of the converted model within g(2) sum|W'x| + g(C+4) M/|tw| of the exact up-scaled model (C14_fl_prediction; PROPFAIL fl-prediction)",
+        "mean within g(N) sum|x|/N of the exact mean (C14_fl_mean_accuracy; FAIL mean, PROPFAIL fl-mean)",
+        "stdev^2 in [(var-E)(1-u)^2, (var+E)(1+u)^2], E = (g(N+2) sum x^2 + g(2N+2)(sum|x|)^2/N)/(N-1) (C14_fl_stdev_accuracy; FAIL stdev, PROPFAIL fl-stdev)",
+        "zero mean: |sum scaled| <= div (g(N) sum|x| + g(2) sum|x-mean|) (C14_fl_zero_mean; FAIL zero-mean, PROPFAIL fl-zero-mean)",
+        "mean scaling range: |y| <= ((max-min) + g(N) sum|x|/N) div (1+u)^2 + eta (C14_fl_mean_range_real; FAIL mean-range, PROPFAIL fl-mean-range)",
+        "unit deviation: |var(scaled) - div^2 var| <= g(4) div^2 (sum(x-m)^2 + (sum|x-m|)^2/N)/(N-1) and |var(scaled) - 1| <= that + 4u + (1+u)^2 E/sd^2 "
+        "(C14_fl_scaled_variance_real, C14_fl_unit_variance_real; FAIL unit-deviation, PROPFAIL fl-scaled-variance / fl-unit-variance)",
+        "linear_t::fit stores nano::upscale(flatten_stats, m, targets_stats, m, W, b) of the solver's solution (FAIL lin-store, bit for bit; C14_wrap_modes)",
+        "linear_t::predict(raw row, missing -> raw 0) within g(2) sum|W'ex x| + g(C+4) M/|tw| + g(C+1)(sum|W'x| + |b'|) of the exact up-scaled model on the "
+        "scaled row (C14_wrap_predict_finite / _missing_is_raw_zero + C14_fl_prediction + C14_fl_predict_dot; PROPFAIL fl-lin-predict)"]
+    cov["not_reached"] = ["lasso / elastic net models and non-MSE losses (the wrappers are the same code)", "missing values in the TRAINING rows of "
+                          "the fitted models", "non-finite but not NaN inputs (+-inf), magnitudes outside 1e-6..1e6"]
     r.assumptions = ["finite inputs of magnitude 1e-6..1e6 (no overflow to inf inside scale, where nan2zero would zero a finite input)",
                      "no FMA contraction / x87 excess precision in the library build (x86-64 SSE2, as built here)",
                      "NDEBUG build: the size assertions of scale/upscale/upscale(W,b) are respected by the harness",
